@@ -486,6 +486,17 @@ def gen_prefix(tier):
             if tier == "quick" and form in ("env-i", "export-and", "declare-x", "two-prefixes") and name not in ("PYTHONPATH", "PYTHONINSPECT"):
                 continue
             add({"form": form, "var": name}, cmd)
+    # python's own -X / -W options, every documented one (python --help-xoptions), attached and separate
+    xtxt = subprocess.run([PY, "--help-xoptions"], capture_output=True, text=True).stdout
+    xopts = list(dict.fromkeys(re.findall(r"^-X (\w+)", xtxt, flags=re.M)))
+    xvals = {"pycache_prefix": "{R}/cache", "frozen_modules": "off", "int_max_str_digits": "0", "tracemalloc": "2", "utf8": "0", "importtime": None}
+    for x in xopts:
+        arg = x + ("=" + xvals[x] if xvals.get(x) else "")
+        for form, cmd in (("X-separate", f"python3 -X {arg} x.py"), ("X-attached", f"python3 -X{arg} x.py"), ("X-cluster", f"python3 -BX{arg} x.py"),
+                          ("X-m", f"python3 -X {arg} -m calendar")):
+            add({"form": form, "xoption": x}, cmd)
+    for w_ in ("error", "ignore", "default::DeprecationWarning", "error::SyntaxWarning"):
+        add({"form": "W", "woption": w_}, f"python3 -W {w_} x.py")
     wrappers = ["time", "timeout 5", "nice", "nice -n 5", "nohup", "command", "env", "env -i", "env --", "builtin command", "exec",
                 "stdbuf -o0", "setsid", "ionice", "chrt 0", "taskset 1", "strace -f", "ltrace", "xargs", "sudo", "doas", "watch -n1", "\\"]
     for w in wrappers:
